@@ -376,6 +376,10 @@ func checkNoDroppedErrors(p *Program, r *Result, pkgs []string) {
 				r.OK(fn.String(), key, r.pos(s.Call), "dropped: "+why, Witness{Kind: "table", Text: why})
 				continue
 			}
+			if s.Callee == "(*os.File).Close" && closesReadOnlyFile(s.Call) {
+				r.OK(fn.String(), key, r.pos(s.Call), "dropped: Close of a file opened read-only with os.Open (nothing was written that could be lost)", Witness{Kind: "table", Text: "os.Open opens read-only"})
+				continue
+			}
 			if e, ok := inheritedDrop(p, allow, fn, s.Callee, 0); ok && e.Caller != fn.String() && siteAllowed(p, e, s) {
 				// a helper the rules do not know, called only from functions in which this drop is accepted
 				r.OK(fn.String(), key, r.pos(s.Call), "dropped, allow-listed for every caller of this helper: "+e.Reason, Witness{Kind: "table", Text: e.Reason})
@@ -598,9 +602,14 @@ func checkErrorsExaminedOnEveryPath(p *Program, r *Result, pkgs []string) {
 					// a failure that was found is reported: on a path that took the non-nil side of
 					// a nil test of E — and looked at E in no other way — the function does not
 					// return an explicit nil error, unless E was stored or handed to a call
-					if fei := errorResultIndex(fn.Signature); fei >= 0 {
-						retErr := stripConv(pa.Resolve(resultsOf(pa.Last.(*ssa.Return))[fei]))
-						mayBeNil := isNilConst(retErr) || (!carries[retErr] && !carries[resultsOf(pa.Last.(*ssa.Return))[fei]] && !p.definitelyNonNil(retErr, 0))
+					if fei := errorResultIndex(fn.Signature); fei >= 0 || fn.Signature.Results().Len() == 0 {
+						// (a function without results — a deferred closure — that finds a failure and
+						// does nothing about it has dropped it)
+						mayBeNil := true
+						if fei >= 0 {
+							retErr := stripConv(pa.Resolve(resultsOf(pa.Last.(*ssa.Return))[fei]))
+							mayBeNil = isNilConst(retErr) || (!carries[retErr] && !carries[resultsOf(pa.Last.(*ssa.Return))[fei]] && !p.definitelyNonNil(retErr, 0))
+						}
 						if isNil, known := pa.NilOnPath(errv, len(pa.Blocks)); known && !isNil && mayBeNil {
 							onlyNilTests := true
 							for i, blk := range pa.Blocks {
@@ -699,18 +708,28 @@ func checkErrorsExaminedOnEveryPath(p *Program, r *Result, pkgs []string) {
 								if !ok || !valueMentions(ifi.Cond, carries, 0) {
 									continue
 								}
-								if _, _, isTest := nilTestOf(blk); !isTest {
-									compared = true
+								if _, _, isTest := nilTestOf(blk); isTest {
+									continue
 								}
-							}
-							for _, pin := range pa.Instrs() {
-								if pc, ok := pin.(*ssa.Call); ok {
-									if cn := calleeName(&pc.Call); cn == "errors.Is" || cn == "errors.As" {
-										for _, a := range pc.Call.Args {
-											if carries[a] {
-												compared = true
-											}
-										}
+								// found to BE a sentinel (err == io.EOF, taken on its equal side): nothing
+								// typed is lost when it is replaced. errors.Is(err, io.EOF) says less — a
+								// typed error that wraps the sentinel passes it too — and is no excuse.
+								cond := ifi.Cond
+								neg := false
+								for {
+									if u, isNot := cond.(*ssa.UnOp); isNot && u.Op == token.NOT {
+										cond, neg = u.X, !neg
+										continue
+									}
+									break
+								}
+								if bo, isBo := cond.(*ssa.BinOp); isBo && (bo.Op == token.EQL || bo.Op == token.NEQ) {
+									equalEdge := 0
+									if (bo.Op == token.NEQ) != neg {
+										equalEdge = 1
+									}
+									if pa.Edge[i] == equalEdge {
+										compared = true
 									}
 								}
 							}
@@ -939,6 +958,156 @@ func valueMentions(v ssa.Value, set map[ssa.Value]bool, depth int) bool {
 		return valueMentions(x.X, set, depth+1)
 	case *ssa.Extract:
 		return valueMentions(x.Tuple, set, depth+1)
+	}
+	return false
+}
+
+// closesReadOnlyFile: the receiver of this (*os.File).Close is, on every path, the first result
+// of os.Open (O_RDONLY by definition) — directly, through a local variable or as a variable
+// captured by a deferred closure.
+func closesReadOnlyFile(c ssa.CallInstruction) bool {
+	args := c.Common().Args
+	if len(args) == 0 {
+		return false
+	}
+	var fromOpen func(v ssa.Value, d int) bool
+	fromOpen = func(v ssa.Value, d int) bool {
+		if d > 4 {
+			return false
+		}
+		switch x := stripConv(v).(type) {
+		case *ssa.Extract:
+			call, ok := x.Tuple.(*ssa.Call)
+			return ok && x.Index == 0 && calleeName(&call.Call) == "os.Open"
+		case *ssa.Phi:
+			for _, e := range x.Edges {
+				if !fromOpen(e, d+1) {
+					return false
+				}
+			}
+			return len(x.Edges) > 0
+		case *ssa.UnOp:
+			// a load of a local cell or of a captured variable: every store to it is from os.Open
+			var cell ssa.Value = x.X
+			var fn *ssa.Function
+			if fv, ok := cell.(*ssa.FreeVar); ok {
+				par := fv.Parent().Parent()
+				if par == nil {
+					return false
+				}
+				idx := -1
+				for i, f := range fv.Parent().FreeVars {
+					if f == fv {
+						idx = i
+					}
+				}
+				cell = nil
+				for _, b := range par.Blocks {
+					for _, in := range b.Instrs {
+						if mc, ok := in.(*ssa.MakeClosure); ok && mc.Fn == ssa.Value(fv.Parent()) && idx >= 0 && idx < len(mc.Bindings) {
+							cell = mc.Bindings[idx]
+						}
+					}
+				}
+				fn = par
+			} else if al, ok := cell.(*ssa.Alloc); ok {
+				fn = al.Parent()
+			}
+			al, ok := cell.(*ssa.Alloc)
+			if !ok || fn == nil {
+				return false
+			}
+			n := 0
+			for _, st := range storesTo(fn, al) {
+				if !fromOpen(st.Val, d+1) {
+					return false
+				}
+				n++
+			}
+			return n > 0
+		}
+		return false
+	}
+	return fromOpen(args[0], 0)
+}
+
+// checkNoSilentRefusal (R13.9): a function that returns (value..., error) does not return the zero
+// value together with a nil error on a path where the nil comes out of a merge — the shape a
+// nil-pass-through wrap helper leaves behind when it is handed an error that is known to be nil
+// (`return "", nil, wrap("not a plugin recipient", err)` behind `err == nil`): the refusal would
+// be a success with nothing parsed. Plain `return nil, nil` statements are not touched (they are
+// written on purpose and covered by the rules of their functions).
+func checkNoSilentRefusal(p *Program, r *Result, pkgs []string) {
+	n := 0
+	for _, fn := range p.Funcs {
+		if !inPkg(fn, pkgs...) || fn.Signature.Results().Len() < 2 || !isErrorType(fn.Signature.Results().At(fn.Signature.Results().Len()-1).Type()) {
+			continue
+		}
+		tb := p.TB(fn)
+		for _, ret := range returnsOf(fn) {
+			rs := resultsOf(ret)
+			if len(rs) < 2 {
+				continue
+			}
+			ph, isPhi := rs[len(rs)-1].(*ssa.Phi)
+			if !isPhi {
+				continue
+			}
+			zero := true
+			for _, v := range rs[:len(rs)-1] {
+				c, isC := v.(*ssa.Const)
+				// (false or 0 with a nil error is an answer, not a refusal)
+				if !isC || !(c.Value == nil || c.Value.ExactString() == `""`) {
+					zero = false
+				}
+			}
+			if !zero {
+				continue
+			}
+			n++
+			retFacts := tb.FactsAt(ret.Block())
+			bad := ""
+			var walk func(ph *ssa.Phi, d int)
+			walk = func(ph *ssa.Phi, d int) {
+				for k, e := range ph.Edges {
+					if p2, ok := e.(*ssa.Phi); ok && d < 2 {
+						walk(p2, d+1)
+						continue
+					}
+					if !isNilConst(e) {
+						continue
+					}
+					facts := append(append([]Atom(nil), retFacts...), phiEdgeFacts(tb, ph, k)...)
+					if !contradictoryNilFacts(facts) {
+						bad = "on the way into the merge at " + r.pos(ph) + " the error is nil"
+					}
+				}
+			}
+			walk(ph, 0)
+			r.Check(bad == "", fn.String(), "refusal#"+itoa(retIndex(fn, ret)), r.pos(ret), "every value merged into the returned error is non-nil where it can be taken", "the function returns zero values and an error that is nil on a feasible path ("+bad+"): a refusal would be reported as a success with nothing parsed")
+		}
+	}
+	r.OK("library", "refusals", "", itoa(n)+" zero-valued returns whose error is a merge: none can be nil")
+}
+
+// contradictoryNilFacts: the facts say of one value both that it is nil and that it is not.
+func contradictoryNilFacts(facts []Atom) bool {
+	isNil, nonNil := map[string]bool{}, map[string]bool{}
+	for _, a := range facts {
+		if a.Kind != "cmp" || a.X == nil || a.Y == nil || a.Y.Op != "Nil" {
+			continue
+		}
+		switch a.Op {
+		case "==":
+			isNil[a.X.Key()] = true
+		case "!=":
+			nonNil[a.X.Key()] = true
+		}
+	}
+	for k := range isNil {
+		if nonNil[k] {
+			return true
+		}
 	}
 	return false
 }
